@@ -51,6 +51,9 @@ int main(void)
   m_has_begin = nondet_bool(); m_has_end = nondet_bool(); m_begin = nondet_i32(); m_end = nondet_i32(); VF_ASSUME(m_begin >= 0 && m_begin < 10000000 && m_end >= 0 && m_end < 10000000);
   m_has_trid = nondet_bool(); m_trid_n = 1; m_trid[0] = nondet_u8();
   m_decode_fail = nondet_u8(); VF_ASSUME(m_decode_fail <= 5);
+#ifdef ONLY_DECODE
+  m_decode_fail = ONLY_DECODE;
+#endif
 #ifdef FACTORY_NULL
   m_factory_null = 1;
 #endif
